@@ -25,7 +25,7 @@ VARIABLES l, g      \* g = the graph of line l, with the in-degree of every obje
 Prep(x) ==
   LET ids == DOMAIN x.objs
       pairs == UNION {{<<p, j>> : j \in 1..Len(x.objs[p].refs)} : p \in ids}
-  IN [l |-> x.l, beh |-> x.beh, step |-> x.step, objs |-> x.objs, ext |-> x.ext,
+  IN [l |-> x.l, beh |-> x.beh, step |-> x.step, objs |-> x.objs, ext |-> x.ext, times |-> x.times,
       deg |-> [o \in ids |-> Cardinality({pj \in pairs : x.objs[pj[1]].refs[pj[2]] = o})]]
 
 DIds == DOMAIN g.objs
@@ -37,13 +37,17 @@ DHashOK(o) == g.objs[o].hashok
 DRefs(o) == g.objs[o].refs
 DInDeg(o) == g.deg[o]
 DCnt(p, o) == Cardinality({j \in 1..Len(DRefs(p)) : DRefs(p)[j] = o})
+DNewTime(o) == g.objs[o].nt
+\* times: realm tag (first letters of the shortened id) -> Time decoded from the raw oid:<pkg>:1#realm record
+DPkgTime(o) == g.times[g.objs[o].rt]
 DOut(p) == {DRefs(p)[j] : j \in 1..Len(DRefs(p))}
 DExt == {g.ext[j] : j \in 1..Len(g.ext)}
 
 DCounted == {o \in DIds : g.objs[o].counted}
 DRoots == {o \in DIds : g.objs[o].ispkg \/ ~g.objs[o].counted}
 I == INSTANCE RealmInv WITH Ids <- DIds, Counted <- DCounted, RootIds <- DRoots, NoId <- "", Ext <- DExt,
-       IsPkg <- DIsPkg, Rc <- DRc, Owner <- DOwner, Esc <- DEsc, HashOK <- DHashOK, Cnt <- DCnt, InDeg <- DInDeg, Out <- DOut
+       IsPkg <- DIsPkg, Rc <- DRc, Owner <- DOwner, Esc <- DEsc, HashOK <- DHashOK, Cnt <- DCnt, InDeg <- DInDeg, Out <- DOut,
+       NewTime <- DNewTime, PkgTime <- DPkgTime
 
 Eval ==
   LET R == I!Reachable
